@@ -13,6 +13,5 @@ UNIT.pinned = [("src/multi.rs", "MultiProgress", n) for n in
                ["new", "with_draw_target", "set_draw_target", "set_move_cursor", "set_alignment", "add", "insert", "insert_from_back",
                 "insert_before", "insert_after", "remove", "internalize", "println", "suspend", "clear", "is_hidden"]] + [
     ("src/multi.rs", "MultiState", "new"), ("src/draw_target.rs", "ProgressDrawTarget", "new_remote"),
-    ("src/draw_target.rs", "ProgressDrawTarget", "set_move_cursor"), ("src/progress_bar.rs", "ProgressBar", "set_draw_target"),
     ("src/progress_bar.rs", "ProgressBar", "index"),
 ]
